@@ -12,7 +12,7 @@ import sympy as sp
 
 from spec import curves as C
 from vf.cvc_alg import witness as W
-from vf.cvc_alg.contract import ConstEq, E, FnContract, Holds, NotIdentZero, Zero
+from vf.cvc_alg.contract import ConstEq, FnContract, NotIdentZero, Zero
 from .ec_ws import frac
 
 X1, X2, Z2, X3, Z3, a24, A = sp.symbols('X1 X2 Z2 X3 Z3 a24 A')
